@@ -90,6 +90,7 @@ def cases(tier, seed):
         out.append({"k": "shapes", "g": g, "r": r})
         out.append({"k": "numeric", "g": g, "r": r})
         out.append({"k": "twins", "g": g, "r": r})
+        out.append({"k": "wide", "g": g, "r": r})
     if tier == "thorough":
         from .C18 import CPU_CONFIGS
         for name in CPU_CONFIGS:
@@ -250,6 +251,18 @@ def run_case(case, R):
                 unsorted = [t for t in (sa["n"], sb["n"]) if list(t) != sorted(t, key=name_index)]
                 check_ops(R, a, b, S, f"names {sa['n']} vs {sb['n']}: {sa['t']} ? {sb['t']}",
                           tags + ["names"] + (["unsorted_names"] if unsorted else []), sub=None)
+        elif k == "wide":
+            ws = [sp for _, sp in space.wide_specs()]
+            for i, sa in enumerate(ws):
+                a, ma = build_checked(sa), model_of(sa)
+                for j, sb in enumerate(ws):
+                    if abs(i - j) > 3 and not (i >= 10 and j >= 10):
+                        continue
+                    b, mb = build_checked(sb), model_of(sb)
+                    names = all_names(ma, mb)
+                    S = sign_matrix(elems_of(ma), elems_of(mb), names, g, r).reshape(())
+                    check_ops(R, a, b, S, f"wide {i} vs {j}", tags + ["wide"])
+                    R.state(("wide", g, r, i, j))
         elif k == "twins":
             seq = [sp for sp in space.twin_sequence() if not sp["s"]]
             for i, (sa, sb) in enumerate(zip(seq, seq[1:] + seq[:1])):
